@@ -123,7 +123,13 @@ func (p *Proj) fill() {
 	}
 }
 
-type Projector struct{}
+// Projector computes projections; ClusterScoped tells whether a kind is cluster-scoped on the
+// simulated API server (object keys in phase listings are the keys the API server will use).
+type Projector struct {
+	ClusterScoped func(group, kind string) bool
+}
+
+var theProjector *Projector
 
 const (
 	revAnn    = "package-operator.run/revision"
@@ -261,6 +267,9 @@ func objKeyOf(obj map[string]any, defaultNS string) string {
 		ns = defaultNS
 	}
 	k := Key{Group: u.GroupVersionKind().Group, Kind: u.GetKind(), NS: ns, Name: u.GetName()}
+	if theProjector != nil && theProjector.ClusterScoped != nil && theProjector.ClusterScoped(k.Group, k.Kind) {
+		k.NS = ""
+	}
 	return k.String()
 }
 
